@@ -338,13 +338,19 @@ func getTypeForPath(cmd CommandRunner, commit, fpath string) PathType {
 
 // recursively find the final target of a symlink.
 func resolveSymlinkTarget(cmd CommandRunner, commit, fpath string, typ PathType) string {
-	if typ != Symlink {
-		return fpath
+	// Symlinks can point at each other, remember which paths were already followed.
+	seen := map[string]struct{}{}
+	for typ == Symlink {
+		if _, ok := seen[fpath]; ok {
+			slog.Debug("Symlink loop detected", slog.String("path", fpath), slog.String("commit", commit))
+			break
+		}
+		seen[fpath] = struct{}{}
+		raw := string(getContentAtCommit(cmd, commit, fpath))
+		fpath = path.Clean(path.Join(path.Dir(fpath), raw))
+		typ = getTypeForPath(cmd, commit, fpath)
 	}
-	raw := string(getContentAtCommit(cmd, commit, fpath))
-	spath := path.Clean(path.Join(path.Dir(fpath), raw))
-	stype := getTypeForPath(cmd, commit, spath)
-	return resolveSymlinkTarget(cmd, commit, spath, stype)
+	return fpath
 }
 
 func getContentAtCommit(cmd CommandRunner, commit, fpath string) []byte {
